@@ -356,6 +356,11 @@ def func_scripts(d, prop):
     if op == "generate":
         for okind in ("arr", "box", "arr_via_ref", "arr_via_mut"):
             add([{"op": "generate", "n": n, "okind": okind, "panic_at": pa}], okind=okind)
+        # sources without drop glue, tracked results: map / zip build like generate does
+        for f in ("own", "ref", "mut", "box"):
+            add([{"op": "map_from_plain", "n": n, "form": [f], "panic_at": pa}], okind="arr", via="map_from_plain:" + f)
+        for f in ("own", "ref", "mut", "refref", "box"):
+            add([{"op": "zip_from_plain", "n": n, "form": [f], "panic_at": pa}], okind="arr", via="zip_from_plain:" + f)
     elif op in ("map", "fold"):
         if form[0]:
             for pm in ([-1, 0] if op == "map" and pa < 0 else [-1]):
